@@ -122,7 +122,10 @@ def check_solver_case(case):
     fails = []
     cons = []
     for t in case["constraints"]:
-        cons.append(build_claripy.build(ir.T(t), build_claripy.Chooser(case["spell"])))
+        try:
+            cons.append(build_claripy.build(ir.T(t), build_claripy.Chooser(case["spell"])))
+        except Exception:  # noqa: BLE001 - construction problems (a concrete division by zero, ...) are C01's / C04's business
+            return [], {"classes": ["build-exception(C04)"], "nontrivial": False}
     marked_idx = [i for i in case["marked"] if i < len(cons)]
     marked = []
     for i in marked_idx:
